@@ -75,8 +75,14 @@ def gen_case(r: random.Random, idx: int):
                 kinds.append('refuse')
             steps.append(['accept', 40.0])
         # --- progress to a state
-        target = r.choice(['connected', 'opensent', 'openconfirm', 'established', 'established'])
-        if target == 'opensent':
+        target = r.choice(['connected', 'opensent', 'openconfirm', 'established', 'established', 'opensent-refused'])
+        if target == 'opensent-refused':
+            # an OPEN the configuration cannot accept, then the KEEPALIVE a careless peer sends anyway
+            bad = r.choice([{'asn': 65009}, {'hold': 1}, {'hold': 2}, {'rid': '0.0.0.0'}])
+            steps += [['wait_msg', rw.OPEN, 5.0], ['open', dict(o, **bad)], ['sleep', r.choice([0.0, 0.05, 0.3])], ['ka'], ['sleep', 0.3]]
+            kinds.append('opensent:refused-open+ka')
+            target = 'opensent'
+        elif target == 'opensent':
             steps.append(['wait_msg', rw.OPEN, 5.0])
         elif target == 'openconfirm':
             steps += [['wait_msg', rw.OPEN, 5.0], ['open', o], ['wait_msg', rw.KEEPALIVE, 5.0]]
@@ -90,7 +96,7 @@ def gen_case(r: random.Random, idx: int):
             if ev == 'open':
                 steps.append(['open', o])
             elif ev == 'badopen':
-                steps.append(['open', dict(o, asn=65009)])
+                steps.append(['open', dict(o, **r.choice([{'asn': 65009}, {'hold': 1}, {'rid': '0.0.0.0'}]))])
             elif ev == 'ka':
                 steps.append(['ka'])
             elif ev == 'update':
@@ -142,6 +148,27 @@ def gen_case(r: random.Random, idx: int):
     return {'config': cfg, 'steps': steps, 'kinds': kinds, 'mode': mode, 'vtimeout': 400.0, 'wall': 90.0, 'idx': idx}
 
 
+def open_acceptable(msg: bytes, cfg) -> str | None:
+    """None when the configuration accepts this OPEN, else the reason a speaker has to refuse it"""
+    try:
+        o = rw.dec_open(msg[19:])
+    except rw.RefError as e:
+        return f'undecodable {e}'
+    if o['version'] != 4:
+        return 'version'
+    asn = o['asn']
+    for code, val in o['caps']:
+        if code == 65 and len(val) == 4:
+            asn = struct.unpack('!L', val)[0]
+    if asn != cfg.get('pas', 65001):
+        return f'peer AS {asn}'
+    if o['hold'] in (1, 2):
+        return f'hold time {o["hold"]}'
+    if o['rid'] in ('0.0.0.0',):
+        return 'identifier 0.0.0.0'
+    return None
+
+
 def resolve_reload(case):
     """'@changed' -> a configuration text with a changed neighbor parameter (forces re-establishment)"""
     # the lab child writes the text given in the step; build it lazily from the config with another hold time
@@ -183,6 +210,21 @@ def judge(res: Result, case, rec):
                 ok = False
             else:
                 res.ok(f'transition:{src}->{dst}')
+            if dst in ('OPENCONFIRM', 'ESTABLISHED'):
+                # "receiving and validating the peer OPEN": the OPEN which opened the exchange on a connection alive now
+                # must be one the configuration accepts (reference reading of RFC 4271 6.2: version, peer AS, hold time, identifier)
+                t = e['t']
+                verdicts = []
+                for s in rec['sessions']:
+                    alive = (s['eof_at'] is None or s['eof_at'] >= t - 0.001) and (s.get('closed_local_at') is None or s['closed_local_at'] >= t - 0.001)
+                    opens = [h for tt, h in s.get('tx_opens', []) if tt <= t + 0.001]
+                    if alive and opens:
+                        verdicts.append(open_acceptable(bytes.fromhex(opens[0]), case['config']))
+                if verdicts and not any(v is None for v in verdicts):
+                    res.violation(f'C05/advanced-on-refusable-open:{dst}', f'{src}->{dst} although the only peer OPEN on a live connection must be refused ({verdicts[0]})', dict(wit, event=e, trace=trace[-8:]), 'open-validated')
+                    ok = False
+                elif verdicts:
+                    res.ok('open-validated')
             if dst == 'ESTABLISHED':
                 est_count += 1
                 t = e['t']
@@ -251,6 +293,8 @@ def judge(res: Result, case, rec):
             ok = False
     if ok:
         res.ok('trace', '|'.join(trace))
+        if 'opensent:refused-open+ka' in case['kinds']:
+            res.ok('refused-open-not-advanced')
     res.extra.setdefault('cells', {})
     for (st, kind) in inj_state:
         res.extra['cells'][f'{st}:{kind}'] = res.extra['cells'].get(f'{st}:{kind}', 0) + 1
@@ -296,4 +340,5 @@ def finish(merged, tier, seed):
         merged['inconclusive'].append('ESTABLISHED never reached')
 
 
-REQUIRED_CLASSES = {'quick': ['established-pre', 'close-on-idle', 'write-state', 'updown', 'trace'], 'thorough': ['established-pre', 'close-on-idle', 'write-state', 'updown', 'trace']}
+_REQ = ['established-pre', 'open-validated', 'refused-open-not-advanced', 'close-on-idle', 'write-state', 'updown', 'trace']
+REQUIRED_CLASSES = {'quick': _REQ, 'thorough': _REQ}
